@@ -211,7 +211,8 @@ LoadStatus DepsLog::Load(const string& path, State* state, string* err) {
     }
 
     if (is_deps) {
-      if ((size % 4) != 0) {
+      if ((size % 4) != 0 || size < 12) {
+        // A deps record holds at least the output id and the two mtime words.
         read_failed = true;
         break;
       }
